@@ -6,13 +6,23 @@ import LeptosModel.Model.Async
 is decomposed along the code: enter the loop (`DMid` = "at `rx.next()`"), one iteration (`dIter`),
 `applyResult`; the fuel of `dLoop`/`eLoop` never runs out (`dLoop_eq`, `eLoop_eq`).
 -/
+set_option maxHeartbeats 1000000
+
 namespace Leptos.Async
 
 /-! ## awaiters -/
 
+/-- no task that waits for the derived is forgotten: one that has not finished is woken, or parked in `wakers`
+(only while loading), or a holder sitting on its guard until it is released (woken once it is), or `lost` — polled
+with loading off while the lock was not readable, which `Inv` excludes as long as no manual write happened
+(`LInv`) -/
 def AwOK (ld : Bool) (a : Aw) : Prop :=
-  (a.done = false → a.woken = true ∨ a.parked = true) ∧ (a.parked = true → ld = true) ∧
-  (a.done = true → a.kind ≠ .tick → a.aborted = false → a.result ≠ none)
+  (a.done = false → a.woken = true ∨ a.parked = true ∨ a.holding = true ∨ a.lost = true) ∧
+  (a.parked = true → ld = true) ∧
+  (a.done = true → a.kind ≠ .tick → a.aborted = false → a.result ≠ none) ∧
+  (a.holding = true → a.rel = true → a.woken = true) ∧
+  (a.holding = true → a.result ≠ none ∧ a.kind = .holder) ∧
+  (a.lost = true → a.kind.usesLock = true)
 
 theorem AwOK.wake {ld : Bool} {a : Aw} (h : AwOK ld a) : AwOK false (wakeAw a) := by
   unfold AwOK wakeAw at *; split <;> simp_all
@@ -20,17 +30,20 @@ theorem AwOK.wake {ld : Bool} {a : Aw} (h : AwOK ld a) : AwOK false (wakeAw a) :
 theorem AwOK.loading {ld : Bool} {a : Aw} (h : AwOK ld a) : AwOK true a := by
   unfold AwOK at *; simp_all
 
-theorem AwOK.poll {ld : Bool} {v : Option Val} {a : Aw} (h : AwOK ld a) (hv : ld = false → v ≠ none) :
-    AwOK ld (pollAw ld v a) := by
-  unfold AwOK pollAw at *
-  split
-  · rename_i hk
-    refine ⟨by simp, by simp, ?_⟩
-    intro _ h1 h2
-    rcases hk with hk | hk
-    · exact absurd hk h1
-    · rw [h2] at hk; exact absurd hk.2 (by decide)
-  · split <;> simp_all
+theorem AwOK.poll {ld b : Bool} {v : Option Val} {a : Aw} (h : AwOK ld a) (hv : ld = false → v ≠ none) :
+    AwOK ld (pollAw ld b v a) := by
+  have c5 : a.holding = true → a.kind = .holder := fun hh => (h.2.2.2.2.1 hh).2
+  by_cases hh : a.holding = true
+  · have hk := c5 hh
+    unfold AwOK pollAw at *
+    simp only [hk, hh]
+    (repeat' split) <;> simp_all
+  · unfold AwOK pollAw at *
+    (repeat' split) <;> simp_all <;> grind
+
+theorem AwOK.release {ld : Bool} {a : Aw} (h : AwOK ld a) : AwOK ld (releaseAw a) := by
+  unfold AwOK releaseAw at *
+  split <;> simp_all <;> grind
 
 theorem awAll_wake {ld : Bool} {l : List Aw} (h : ∀ a ∈ l, AwOK ld a) :
     ∀ a ∈ l.map wakeAw, AwOK false a := by
@@ -57,8 +70,8 @@ theorem mem_modifyAt {f : Aw → Aw} {l : List Aw} {i : Nat} {x : Aw} (h : x ∈
         · exact .inl (by simp [h])
         · exact .inr ⟨b, by simp [hb], hx⟩
 
-theorem awAll_poll {ld : Bool} {v : Option Val} {l : List Aw} {i : Nat} (h : ∀ a ∈ l, AwOK ld a)
-    (hv : ld = false → v ≠ none) : ∀ a ∈ modifyAt (pollAw ld v) l i, AwOK ld a := by
+theorem awAll_poll {ld b : Bool} {v : Option Val} {l : List Aw} {i : Nat} (h : ∀ a ∈ l, AwOK ld a)
+    (hv : ld = false → v ≠ none) : ∀ a ∈ modifyAt (pollAw ld b v) l i, AwOK ld a := by
   intro a ha
   rcases mem_modifyAt ha with ha | ⟨b, hb, rfl⟩
   · exact h a ha
@@ -84,9 +97,9 @@ theorem anyTick_append_left (nf : Nat) (l m : List Aw) (h : l.any (isTickOf nf) 
     (l ++ m).any (isTickOf nf) = true := by simp [List.any_append, h]
 
 /-- polling task `i` keeps the witness unless task `i` is itself the tick of the fetch in flight -/
-theorem anyTick_poll (nf : Nat) (ld : Bool) (v : Option Val) (l : List Aw) (i : Nat)
+theorem anyTick_poll (nf : Nat) (ld b : Bool) (v : Option Val) (l : List Aw) (i : Nat)
     (h : l.any (isTickOf nf) = true) (hf : tickFires nf l[i]? = false) :
-    (modifyAt (pollAw ld v) l i).any (isTickOf nf) = true := by
+    (modifyAt (pollAw ld b v) l i).any (isTickOf nf) = true := by
   induction l generalizing i with
   | nil => simp at h
   | cons a as ih =>
@@ -150,11 +163,15 @@ structure DRest (s : State) : Prop where
   r4 : s.pc ≠ .start → s.firstRun = false ∧ s.initialFut = false
   r5 : s.pc = .waiting → s.loading = false ∧ (s.dWoken = false → s.reg = true ∧ s.chan = false)
   r6 : s.pc = .fetching → (s.curStatus = .pending ∨ s.curStatus = .ready) ∧ s.fetchVersion = s.version ∧
-        (s.tickFired = true → s.curStatus = .ready → s.dWoken = true) ∧
-        (s.tickFired = true → s.dWoken = false → s.dataReg = true)
+        (s.tickFired = true → s.curStatus = .ready → s.dWoken = true ∨ s.lockReg = true) ∧
+        (s.tickFired = true → s.dWoken = false → s.dataReg = true ∨ s.lockReg = true)
   fresh : s.viaMemo = true → s.stolen = false → s.dstate = .clean →
         (s.pc = .waiting → s.manualLive = false → s.value = some (fetchFn (inputsNow s))) ∧
         (s.pc ≠ .waiting → s.curInputs = inputsNow s)
+  /-- the task waits in `value.write().await` (or has been woken by the lock and not been polled yet): no lost
+  wake-up — when the last read guard has gone it is woken -/
+  r8 : s.lockReg = true → s.pc = .fetching ∧ s.curStatus = .ready ∧ s.tickFired = true ∧
+        (s.guards = 0 → s.dWoken = true)
 
 /-- the derived's task at the top of its loop (`rx.next()`), in the middle of a poll -/
 structure DMid (s : State) : Prop where
@@ -166,6 +183,8 @@ structure DMid (s : State) : Prop where
   f2 : s.firstRun = false → s.initialFut = false ∧ s.loading = false ∧
         (s.viaMemo = true → s.stolen = false → s.dstate = .clean → s.manualLive = false →
           s.value = some (fetchFn (inputsNow s)))
+  /-- nobody waits for the write lock -/
+  lk : s.lockReg = false
 
 structure Inv (s : State) : Prop where
   dc : DCore s
@@ -180,7 +199,7 @@ structure Mid (s : State) : Prop where
   ew : EWake s
 
 macro "inv_cases" : tactic =>
-  `(tactic| (refine ⟨⟨?_, ?_, ?_, ?_, ?_, ?_, ?_, ?_⟩, ⟨?_, ?_, ?_, ?_, ?_⟩, ⟨?_, ?_, ?_, ?_, ?_, ?_, ?_⟩, ⟨?_, ?_, ?_⟩⟩))
+  `(tactic| (refine ⟨⟨?_, ?_, ?_, ?_, ?_, ?_, ?_, ?_⟩, ⟨?_, ?_, ?_, ?_, ?_, ?_⟩, ⟨?_, ?_, ?_, ?_, ?_, ?_, ?_⟩, ⟨?_, ?_, ?_⟩⟩))
 
 theorem Inv.init (c : Cfg) : Inv (init c) := by
   simp only [Async.init]
@@ -191,7 +210,7 @@ theorem Inv.init (c : Cfg) : Inv (init c) := by
 
 theorem Inv.dMarkDirtySrc {s : State} (h : Inv s) (x : List Val) (hv : s.viaMemo = false ∨ x = s.src) :
     Inv (Async.dMarkDirty { s with src := x }) := by
-  obtain ⟨⟨r1, r2, r7, m1, aw, s1, s2, t1⟩, ⟨r3, r4, r5, r6, fresh⟩, ⟨e1, e2, e3, e5, e6, e7, e8⟩, ⟨w1, w2, w3⟩⟩ := h
+  obtain ⟨⟨r1, r2, r7, m1, aw, s1, s2, t1⟩, ⟨r3, r4, r5, r6, fresh, r8⟩, ⟨e1, e2, e3, e5, e6, e7, e8⟩, ⟨w1, w2, w3⟩⟩ := h
   unfold Async.dMarkDirty dNotify
   inv_cases <;> (simp only [lastSeen, inputsNow, tickLive] at *; split <;> try split) <;>
     (rcases hv with hv | hv) <;> simp_all
@@ -200,20 +219,20 @@ theorem Inv.dMarkDirtySrc {s : State} (h : Inv s) (x : List Val) (hv : s.viaMemo
 derived is only asked to check -/
 theorem Inv.smMarkDirtySrc {s : State} (h : Inv s) (x : List Val) (hv : s.viaMemo = true) :
     Inv (smMarkDirty { s with src := x }) := by
-  obtain ⟨⟨r1, r2, r7, m1, aw, s1, s2, t1⟩, ⟨r3, r4, r5, r6, fresh⟩, ⟨e1, e2, e3, e5, e6, e7, e8⟩, ⟨w1, w2, w3⟩⟩ := h
+  obtain ⟨⟨r1, r2, r7, m1, aw, s1, s2, t1⟩, ⟨r3, r4, r5, r6, fresh, r8⟩, ⟨e1, e2, e3, e5, e6, e7, e8⟩, ⟨w1, w2, w3⟩⟩ := h
   unfold smMarkDirty dMarkCheck dNotify
   inv_cases <;> (simp only [lastSeen, inputsNow, tickLive] at *; split <;> try split) <;> simp_all
 
 theorem Inv.dMarkDirty {s : State} (h : Inv s) : Inv (Async.dMarkDirty s) := h.dMarkDirtySrc s.src (.inr rfl)
 
 theorem Inv.mMarkDirty {s : State} (h : Inv s) : Inv (mMarkDirty s) := by
-  obtain ⟨⟨r1, r2, r7, m1, aw, s1, s2, t1⟩, ⟨r3, r4, r5, r6, fresh⟩, ⟨e1, e2, e3, e5, e6, e7, e8⟩, ⟨w1, w2, w3⟩⟩ := h
+  obtain ⟨⟨r1, r2, r7, m1, aw, s1, s2, t1⟩, ⟨r3, r4, r5, r6, fresh, r8⟩, ⟨e1, e2, e3, e5, e6, e7, e8⟩, ⟨w1, w2, w3⟩⟩ := h
   unfold Async.mMarkDirty eMarkCheck eNotify
   inv_cases <;> (simp only [lastSeen, inputsNow, tickLive] at *; (try split) <;> try split) <;> simp_all <;> grind
 
 /-- `Resource::refetch`: the counter signal is bumped, the memo marked, the derived asked to check -/
 theorem Inv.smMarkDirtyRc {s : State} (h : Inv s) (x : Nat) : Inv (smMarkDirty { s with rc := x }) := by
-  obtain ⟨⟨r1, r2, r7, m1, aw, s1, s2, t1⟩, ⟨r3, r4, r5, r6, fresh⟩, ⟨e1, e2, e3, e5, e6, e7, e8⟩, ⟨w1, w2, w3⟩⟩ := h
+  obtain ⟨⟨r1, r2, r7, m1, aw, s1, s2, t1⟩, ⟨r3, r4, r5, r6, fresh, r8⟩, ⟨e1, e2, e3, e5, e6, e7, e8⟩, ⟨w1, w2, w3⟩⟩ := h
   unfold smMarkDirty dMarkCheck dNotify
   inv_cases <;> (simp only [lastSeen, inputsNow, tickLive] at *; split <;> try split) <;> simp_all
 
@@ -225,7 +244,7 @@ theorem Inv.refetch {s : State} (h : Inv s) : Inv (refetch s) := by
 
 /-- a synchronous read by the boundary: a reader task is spawned, nothing else the invariant talks about -/
 theorem Inv.bread {s : State} (h : Inv s) : Inv (bread s) := by
-  obtain ⟨⟨r1, r2, r7, m1, aw, s1, s2, t1⟩, ⟨r3, r4, r5, r6, fresh⟩, ⟨e1, e2, e3, e5, e6, e7, e8⟩, ⟨w1, w2, w3⟩⟩ := h
+  obtain ⟨⟨r1, r2, r7, m1, aw, s1, s2, t1⟩, ⟨r3, r4, r5, r6, fresh, r8⟩, ⟨e1, e2, e3, e5, e6, e7, e8⟩, ⟨w1, w2, w3⟩⟩ := h
   have happ : ∀ a ∈ s.aws ++ [({ kind := .reader } : Aw)], AwOK s.loading a := by
     intro a ha
     rcases List.mem_append.mp ha with ha | ha
@@ -237,7 +256,7 @@ theorem Inv.bread {s : State} (h : Inv s) : Inv (bread s) := by
   split
   · split
     · inv_cases <;> (try exact htl _) <;> simp_all [lastSeen, inputsNow]
-    · exact ⟨⟨r1, r2, r7, m1, aw, s1, s2, t1⟩, ⟨r3, r4, r5, r6, fresh⟩, ⟨e1, e2, e3, e5, e6, e7, e8⟩, ⟨w1, w2, w3⟩⟩
+    · exact ⟨⟨r1, r2, r7, m1, aw, s1, s2, t1⟩, ⟨r3, r4, r5, r6, fresh, r8⟩, ⟨e1, e2, e3, e5, e6, e7, e8⟩, ⟨w1, w2, w3⟩⟩
   · inv_cases <;> (try exact htl _) <;> simp_all [lastSeen, inputsNow]
 
 theorem Inv.setSrc {s : State} (h : Inv s) (i : Nat) (v : Val) : Inv (setSrc s i v) := by
@@ -261,7 +280,7 @@ theorem Inv.setSrc {s : State} (h : Inv s) (i : Nat) (v : Val) : Inv (setSrc s i
         · exact h1
       · -- a write to a source the derived has not read: nothing is marked
         have h1 : Inv { s with src := setAt s.src i v } := by
-          obtain ⟨⟨r1, r2, r7, m1, aw, s1, s2, t1⟩, ⟨r3, r4, r5, r6, fresh⟩, ⟨e1, e2, e3, e5, e6, e7, e8⟩, ⟨w1, w2, w3⟩⟩ := h
+          obtain ⟨⟨r1, r2, r7, m1, aw, s1, s2, t1⟩, ⟨r3, r4, r5, r6, fresh, r8⟩, ⟨e1, e2, e3, e5, e6, e7, e8⟩, ⟨w1, w2, w3⟩⟩ := h
           inv_cases <;> simp_all [lastSeen, inputsNow, tickLive]
         rw [if_neg hi]
         split
@@ -270,12 +289,18 @@ theorem Inv.setSrc {s : State} (h : Inv s) (i : Nat) (v : Val) : Inv (setSrc s i
   · exact h
 
 theorem Inv.complete {s : State} (h : Inv s) (f : Nat) : Inv (complete s f) := by
-  obtain ⟨⟨r1, r2, r7, m1, aw, s1, s2, t1⟩, ⟨r3, r4, r5, r6, fresh⟩, ⟨e1, e2, e3, e5, e6, e7, e8⟩, ⟨w1, w2, w3⟩⟩ := h
+  obtain ⟨⟨r1, r2, r7, m1, aw, s1, s2, t1⟩, ⟨r3, r4, r5, r6, fresh, r8⟩, ⟨e1, e2, e3, e5, e6, e7, e8⟩, ⟨w1, w2, w3⟩⟩ := h
+  have r64 : s.pc = .fetching → s.tickFired = true → s.dWoken = false → s.curStatus = .pending →
+      s.dataReg = true := by
+    intro hp ht hd hc
+    rcases (r6 hp).2.2.2 ht hd with h | h
+    · exact h
+    · have := (r8 h).2.1; rw [hc] at this; exact absurd this (by decide)
   unfold Async.complete
   inv_cases <;> (simp only [lastSeen, inputsNow, tickLive] at *; split) <;> simp_all <;> grind
 
 theorem Inv.attach {s : State} (h : Inv s) : Inv { s with aws := s.aws ++ [{}] } := by
-  obtain ⟨⟨r1, r2, r7, m1, aw, s1, s2, t1⟩, ⟨r3, r4, r5, r6, fresh⟩, ⟨e1, e2, e3, e5, e6, e7, e8⟩, ⟨w1, w2, w3⟩⟩ := h
+  obtain ⟨⟨r1, r2, r7, m1, aw, s1, s2, t1⟩, ⟨r3, r4, r5, r6, fresh, r8⟩, ⟨e1, e2, e3, e5, e6, e7, e8⟩, ⟨w1, w2, w3⟩⟩ := h
   have htl : s.tickFired = false → (s.nf = 1 ∧ s.tick0 = true) ∨ (s.aws ++ [({} : Aw)]).any (isTickOf s.nf) = true :=
     fun hf => tickLive_append _ (t1 hf)
   inv_cases <;> (try exact htl) <;> simp_all [lastSeen, inputsNow]
@@ -286,7 +311,7 @@ theorem Inv.attach {s : State} (h : Inv s) : Inv { s with aws := s.aws ++ [{}] }
 
 theorem Inv.attachS {s : State} (h : Inv s) :
     Inv { s with aws := s.aws ++ [{ kind := .saw }], noReader := false } := by
-  obtain ⟨⟨r1, r2, r7, m1, aw, s1, s2, t1⟩, ⟨r3, r4, r5, r6, fresh⟩, ⟨e1, e2, e3, e5, e6, e7, e8⟩, ⟨w1, w2, w3⟩⟩ := h
+  obtain ⟨⟨r1, r2, r7, m1, aw, s1, s2, t1⟩, ⟨r3, r4, r5, r6, fresh, r8⟩, ⟨e1, e2, e3, e5, e6, e7, e8⟩, ⟨w1, w2, w3⟩⟩ := h
   have htl : s.tickFired = false →
       (s.nf = 1 ∧ s.tick0 = true) ∨ (s.aws ++ [({ kind := .saw } : Aw)]).any (isTickOf s.nf) = true :=
     fun hf => tickLive_append _ (t1 hf)
@@ -309,7 +334,7 @@ theorem anyTick_drop (nf : Nat) (l : List Aw) : (l.map dropAw).any (isTickOf nf)
 
 /-- the readers under the boundary are disposed: reader tasks lose their handle, awaiters are dropped -/
 theorem Inv.bdrop {s : State} (h : Inv s) : Inv (bdrop s) := by
-  obtain ⟨⟨r1, r2, r7, m1, aw, s1, s2, t1⟩, ⟨r3, r4, r5, r6, fresh⟩, ⟨e1, e2, e3, e5, e6, e7, e8⟩, ⟨w1, w2, w3⟩⟩ := h
+  obtain ⟨⟨r1, r2, r7, m1, aw, s1, s2, t1⟩, ⟨r3, r4, r5, r6, fresh, r8⟩, ⟨e1, e2, e3, e5, e6, e7, e8⟩, ⟨w1, w2, w3⟩⟩ := h
   have haw : ∀ a ∈ s.aws.map dropAw, AwOK s.loading a := by
     intro a ha
     rcases List.mem_map.mp ha with ⟨b, hb, rfl⟩
@@ -323,7 +348,7 @@ theorem Inv.bdrop {s : State} (h : Inv s) : Inv (bdrop s) := by
 
 /-- ... with the proposed repair 3 (task ids and registrations go with the readers) -/
 theorem Inv.bdropFixed {s : State} (h : Inv s) : Inv (bdropFixed s) := by
-  obtain ⟨⟨r1, r2, r7, m1, aw, s1, s2, t1⟩, ⟨r3, r4, r5, r6, fresh⟩, ⟨e1, e2, e3, e5, e6, e7, e8⟩, ⟨w1, w2, w3⟩⟩ := h
+  obtain ⟨⟨r1, r2, r7, m1, aw, s1, s2, t1⟩, ⟨r3, r4, r5, r6, fresh, r8⟩, ⟨e1, e2, e3, e5, e6, e7, e8⟩, ⟨w1, w2, w3⟩⟩ := h
   have haw : ∀ a ∈ s.aws.map dropAw, AwOK s.loading a := by
     intro a ha
     rcases List.mem_map.mp ha with ⟨b, hb, rfl⟩
@@ -335,23 +360,69 @@ theorem Inv.bdropFixed {s : State} (h : Inv s) : Inv (bdropFixed s) := by
   unfold Async.bdropFixed
   inv_cases <;> (try exact htl) <;> (try exact haw) <;> simp_all [lastSeen, inputsNow]
 
+/-- a new awaiter of any kind but a tick -/
+theorem Inv.attachK {s : State} (h : Inv s) (k : AwKind) (hk : k ≠ .tick) :
+    Inv { s with aws := s.aws ++ [{ kind := k }] } := by
+  obtain ⟨⟨r1, r2, r7, m1, aw, s1, s2, t1⟩, ⟨r3, r4, r5, r6, fresh, r8⟩, ⟨e1, e2, e3, e5, e6, e7, e8⟩, ⟨w1, w2, w3⟩⟩ := h
+  have htl : s.tickFired = false →
+      (s.nf = 1 ∧ s.tick0 = true) ∨ (s.aws ++ [({ kind := k } : Aw)]).any (isTickOf s.nf) = true :=
+    fun hf => tickLive_append _ (t1 hf)
+  inv_cases <;> (try exact htl) <;> simp_all [lastSeen, inputsNow]
+  intro a ha
+  rcases ha with ha | ha
+  · exact aw a ha
+  · subst ha; simp [AwOK]
+
+/-- the harness takes a read guard (only while nobody waits for the write lock) -/
+theorem Inv.hold {s : State} (h : Inv s) :
+    Inv { s with guards := s.guards + 1, syncGuards := s.syncGuards + 1 } := by
+  · obtain ⟨⟨r1, r2, r7, m1, aw, s1, s2, t1⟩, ⟨r3, r4, r5, r6, fresh, r8⟩, ⟨e1, e2, e3, e5, e6, e7, e8⟩, ⟨w1, w2, w3⟩⟩ := h
+    inv_cases <;> simp_all [lastSeen, inputsNow, tickLive]
+
+theorem isTickOf_releaseAw (nf : Nat) (a : Aw) : isTickOf nf (releaseAw a) = isTickOf nf a := by
+  unfold isTickOf releaseAw; (repeat' split) <;> simp_all
+
+theorem anyTick_release (nf : Nat) (l : List Aw) : (l.map releaseAw).any (isTickOf nf) = l.any (isTickOf nf) := by
+  induction l with
+  | nil => rfl
+  | cons a as ih => simp only [List.map_cons, List.any_cons, isTickOf_releaseAw, ih]
+
+/-- every guard is given back: holders are woken, and so is the task if it waits for the write lock -/
+theorem Inv.release {s : State} (h : Inv s) : Inv (release s) := by
+  obtain ⟨⟨r1, r2, r7, m1, aw, s1, s2, t1⟩, ⟨r3, r4, r5, r6, fresh, r8⟩, ⟨e1, e2, e3, e5, e6, e7, e8⟩, ⟨w1, w2, w3⟩⟩ := h
+  have haw : ∀ a ∈ s.aws.map releaseAw, AwOK s.loading a := by
+    intro a ha
+    rcases List.mem_map.mp ha with ⟨b, hb, rfl⟩
+    exact (aw b hb).release
+  have htl : s.tickFired = false → (s.nf = 1 ∧ s.tick0 = true) ∨ (s.aws.map releaseAw).any (isTickOf s.nf) = true := by
+    intro hf
+    rw [anyTick_release]
+    exact t1 hf
+  unfold Async.release wakeWriter
+  dsimp only
+  split
+  · inv_cases <;> (try exact htl) <;> (try exact haw) <;> simp_all [lastSeen, inputsNow] <;> grind
+  · inv_cases <;> (try exact htl) <;> (try exact haw) <;> simp_all [lastSeen, inputsNow] <;> grind
+
 theorem Inv.pollA {s : State} (h : Inv s) (i : Nat) : Inv (pollA s i) := by
-  obtain ⟨⟨r1, r2, r7, m1, aw, s1, s2, t1⟩, ⟨r3, r4, r5, r6, fresh⟩, ⟨e1, e2, e3, e5, e6, e7, e8⟩, ⟨w1, w2, w3⟩⟩ := h
+  obtain ⟨⟨r1, r2, r7, m1, aw, s1, s2, t1⟩, ⟨r3, r4, r5, r6, fresh, r8⟩, ⟨e1, e2, e3, e5, e6, e7, e8⟩, ⟨w1, w2, w3⟩⟩ := h
   have htl : (s.tickFired || tickFires s.nf s.aws[i]?) = false →
-      (s.nf = 1 ∧ s.tick0 = true) ∨ (modifyAt (pollAw s.loading s.value) s.aws i).any (isTickOf s.nf) = true := by
+      (s.nf = 1 ∧ s.tick0 = true) ∨ (modifyAt (pollAw s.loading s.lockReg s.value) s.aws i).any (isTickOf s.nf) = true := by
     intro hf
     simp only [Bool.or_eq_false_iff] at hf
     rcases t1 hf.1 with h | h
     · exact .inl h
-    · exact .inr (anyTick_poll _ _ _ _ _ h hf.2)
-  unfold Async.pollA
-  inv_cases <;> (try exact htl) <;> simp_all [lastSeen, inputsNow]
-  · exact awAll_poll aw r7
-  all_goals grind
+    · exact .inr (anyTick_poll _ _ _ _ _ _ h hf.2)
+  have haw := awAll_poll (b := s.lockReg) (i := i) aw r7
+  unfold Async.pollA wakeWriter
+  dsimp only
+  split
+  · inv_cases <;> (try exact htl) <;> (try exact haw) <;> simp_all [lastSeen, inputsNow] <;> grind
+  · inv_cases <;> (try exact htl) <;> (try exact haw) <;> simp_all [lastSeen, inputsNow] <;> grind
 
 /-- the tick task of fetch 0 -/
 theorem Inv.pollT0 {s : State} (h : Inv s) : Inv (pollT0 s) := by
-  obtain ⟨⟨r1, r2, r7, m1, aw, s1, s2, t1⟩, ⟨r3, r4, r5, r6, fresh⟩, ⟨e1, e2, e3, e5, e6, e7, e8⟩, ⟨w1, w2, w3⟩⟩ := h
+  obtain ⟨⟨r1, r2, r7, m1, aw, s1, s2, t1⟩, ⟨r3, r4, r5, r6, fresh, r8⟩, ⟨e1, e2, e3, e5, e6, e7, e8⟩, ⟨w1, w2, w3⟩⟩ := h
   unfold Async.pollT0
   split
   · inv_cases <;> simp_all [lastSeen, inputsNow, tickLive] <;> grind
@@ -396,6 +467,9 @@ macro "ns_frame" : tactic =>
 @[simp] theorem notifySubs_eSubD (s : State) : (notifySubs s).eSubD = s.eSubD := by ns_frame
 @[simp] theorem notifySubs_eSubM (s : State) : (notifySubs s).eSubM = s.eSubM := by ns_frame
 @[simp] theorem notifySubs_notifs (s : State) : (notifySubs s).notifs = s.notifs + 1 := by ns_frame
+@[simp] theorem notifySubs_lockReg (s : State) : (notifySubs s).lockReg = s.lockReg := by ns_frame
+@[simp] theorem notifySubs_guards (s : State) : (notifySubs s).guards = s.guards := by ns_frame
+@[simp] theorem notifySubs_syncGuards (s : State) : (notifySubs s).syncGuards = s.syncGuards := by ns_frame
 
 @[simp] theorem notifySubs_eDirty (s : State) : (notifySubs s).eDirty = (s.eSubD || s.eDirty) := by ns_frame
 @[simp] theorem notifySubs_eChan (s : State) : (notifySubs s).eChan = (s.eSubD || s.eChan) := by ns_frame
@@ -428,13 +502,13 @@ theorem notifySubs_dcore {s : State} (r1 : s.dstate ≠ .notifying) (r2 : s.dsta
     · exact .inr (by simpa using anyTick_wake _ _ h)
 
 theorem Inv.manualSet {s : State} (h : Inv s) (v : Val) : Inv (manualSet s v) := by
-  obtain ⟨⟨r1, r2, r7, m1, aw, s1, s2, t1⟩, ⟨r3, r4, r5, r6, fresh⟩, ⟨e1, e2, e3, e5, e6, e7, e8⟩, ew⟩ := h
+  obtain ⟨⟨r1, r2, r7, m1, aw, s1, s2, t1⟩, ⟨r3, r4, r5, r6, fresh, r8⟩, ⟨e1, e2, e3, e5, e6, e7, e8⟩, ew⟩ := h
   unfold Async.manualSet
   have hc := notifySubs_dcore (s := { s with value := some v, manualLive := true, lastManual := some v, msetDuring := true })
     r1 r2 (by simp) (by simp) aw s1 s2 t1
   have he := notifySubs_effect (s := { s with value := some v, manualLive := true, lastManual := some v, msetDuring := true })
     e1 (fun a b => (e2 a b).1) e3 e5 e6 e7 e8 ⟨ew.w1, ew.w2, ew.w3⟩
-  refine ⟨hc, ⟨?_, ?_, ?_, ?_, ?_⟩, he.1, he.2⟩ <;> simp_all [inputsNow] <;> grind
+  refine ⟨hc, ⟨?_, ?_, ?_, ?_, ?_, ?_⟩, he.1, he.2⟩ <;> simp_all [inputsNow] <;> grind
 
 /-! the post-`await` reads touch only `run`, `dSub`, `curInputs` -/
 macro "pr_frame" : tactic => `(tactic| (simp only [postReads]))
@@ -489,6 +563,9 @@ macro "pr_frame" : tactic => `(tactic| (simp only [postReads]))
 @[simp] theorem postReads_coveredCur (s : State) : (postReads s).coveredCur = s.coveredCur := by pr_frame
 @[simp] theorem postReads_msetDuring (s : State) : (postReads s).msetDuring = s.msetDuring := by pr_frame
 @[simp] theorem postReads_noReader (s : State) : (postReads s).noReader = s.noReader := by pr_frame
+@[simp] theorem postReads_lockReg (s : State) : (postReads s).lockReg = s.lockReg := by pr_frame
+@[simp] theorem postReads_guards (s : State) : (postReads s).guards = s.guards := by pr_frame
+@[simp] theorem postReads_syncGuards (s : State) : (postReads s).syncGuards = s.syncGuards := by pr_frame
 theorem postReads_curInputs_memo (s : State) (h : s.viaMemo = true) : (postReads s).curInputs = s.curInputs := by
   simp [postReads, h]
 
@@ -502,15 +579,15 @@ theorem applyResult_mid {s : State} (dc : DCore s) (ec : ECore s) (ew : EWake s)
   rw [if_pos (by simpa using hv)]
   have hc := notifySubs_dcore
     (s := { postReads { s with pending := s.pending - s.idsHeld, idsHeld := 0, curStatus := .done,
-                               pc := .waiting, dataReg := false } with
+                               pc := .waiting, dataReg := false, lockReg := false } with
       value := some (fetchFn (postReads s).curInputs), manualLive := false })
     r1 r2 (by simp) (by simp) aw s1 s2 t1
   have he := notifySubs_effect
     (s := { postReads { s with pending := s.pending - s.idsHeld, idsHeld := 0, curStatus := .done,
-                               pc := .waiting, dataReg := false } with
+                               pc := .waiting, dataReg := false, lockReg := false } with
       value := some (fetchFn (postReads s).curInputs), manualLive := false })
     e1 (fun a b => (e2 a b).1) e3 e5 e6 e7 e8 ⟨ew.w1, ew.w2, ew.w3⟩
-  refine ⟨hc, ⟨?_, ?_, ?_⟩, he.1, he.2⟩ <;> simp_all [inputsNow, postReads_curInputs_memo]
+  refine ⟨hc, ⟨?_, ?_, ?_, ?_⟩, he.1, he.2⟩ <;> simp_all [inputsNow, postReads_curInputs_memo]
 
 @[simp] theorem applyResult_chan (s : State) : (applyResult s).chan = s.chan := by
   simp only [applyResult, postReads]; split <;> simp
@@ -531,7 +608,8 @@ theorem dIter_def (s : State) : dIter s =
     if s.chan = false then ({ s with reg := true }, false)
     else if (chk s).2 = true ∨ (chk s).1.firstRun = true then
       (if (fetchState s).tickFired = true ∧ (fetchState s).curStatus = .ready then
-        (applyResult (fetchState s), true)
+        (if (fetchState s).guards = 0 then (applyResult (fetchState s), true)
+         else (blockOnLock (fetchState s), false))
        else ({ fetchState s with dataReg := (fetchState s).tickFired }, false))
     else ((chk s).1, true) := by
   simp only [dIter, fetchState, chk, Bool.or_eq_true]
@@ -572,9 +650,11 @@ theorem dIter_cont_chan (s : State) (h : (dIter s).2 = true) : (dIter s).1.chan 
   · rw [if_neg hc] at h ⊢
     split at h
     · split at h
-      · rename_i h1 h2
-        rw [if_pos h1, if_pos h2]
-        simp [fetchState_chan]
+      · split at h
+        · rename_i h1 h2 h3
+          rw [if_pos h1, if_pos h2, if_pos h3]
+          simp [fetchState_chan]
+        · simp at h
       · simp at h
     · rename_i h1
       rw [if_neg h1]
@@ -643,8 +723,8 @@ theorem Mid.toFetch {s : State} (h : Mid s) (hn : (chk s).2 = true ∨ (chk s).1
     DCore (fetchState s) ∧ ECore (fetchState s) ∧ EWake (fetchState s) ∧
     ((fetchState s).curStatus = .pending ∨ (fetchState s).curStatus = .ready) ∧
     ((fetchState s).viaMemo = true → (fetchState s).stolen = false → (fetchState s).dstate = .clean →
-      (fetchState s).curInputs = inputsNow (fetchState s)) := by
-  obtain ⟨⟨r1, r2, r7, m1, aw, s1, s2, t1⟩, ⟨pcw, f1, f2⟩, ⟨e1, e2, e3, e5, e6, e7, e8⟩, ⟨w1, w2, w3⟩⟩ := h
+      (fetchState s).curInputs = inputsNow (fetchState s)) ∧ (fetchState s).lockReg = false := by
+  obtain ⟨⟨r1, r2, r7, m1, aw, s1, s2, t1⟩, ⟨pcw, f1, f2, lk⟩, ⟨e1, e2, e3, e5, e6, e7, e8⟩, ⟨w1, w2, w3⟩⟩ := h
   have aw' : ∀ a ∈ s.aws, AwOK true a := fun a ha => (aw a ha).loading
   rcases fetchState_cases s with ⟨hc2, hi, hd, hsm, heq⟩ | heq
   · -- the initial future is reused: the check found no change
@@ -657,7 +737,7 @@ theorem Mid.toFetch {s : State} (h : Mid s) (hn : (chk s).2 = true ∨ (chk s).1
     have ht : (fetchState s).tickFired = false → tickLive (fetchState s) := by
       rw [heq]; simpa [tickLive] using t1
     rw [heq] at ht ⊢
-    refine ⟨⟨?_, ?_, ?_, ?_, ?_, ?_, ?_, ht⟩, ⟨?_, ?_, ?_, ?_, ?_, ?_, ?_⟩, ⟨?_, ?_, ?_⟩, ?_, ?_⟩ <;>
+    refine ⟨⟨?_, ?_, ?_, ?_, ?_, ?_, ?_, ht⟩, ⟨?_, ?_, ?_, ?_, ?_, ?_, ?_⟩, ⟨?_, ?_, ?_⟩, ?_, ?_, ?_⟩ <;>
       simp_all [lastSeen, inputsNow] <;> grind
   · have ht : (fetchState s).tickFired = false → tickLive (fetchState s) := by
       rw [heq]
@@ -673,7 +753,7 @@ theorem Mid.toFetch {s : State} (h : Mid s) (hn : (chk s).2 = true ∨ (chk s).1
         · simp at ha; subst ha; simp [AwOK]
       · exact aw' a ha
     rw [heq] at ht ⊢
-    refine ⟨⟨?_, ?_, ?_, ?_, awn, ?_, ?_, ht⟩, ⟨?_, ?_, ?_, ?_, ?_, ?_, ?_⟩, ⟨?_, ?_, ?_⟩, ?_, ?_⟩ <;>
+    refine ⟨⟨?_, ?_, ?_, ?_, awn, ?_, ?_, ht⟩, ⟨?_, ?_, ?_, ?_, ?_, ?_, ?_⟩, ⟨?_, ?_, ?_⟩, ?_, ?_, ?_⟩ <;>
       simp_all [lastSeen, inputsNow] <;> grind
 
 theorem Mid.iter {s : State} (h : Mid s) :
@@ -685,17 +765,32 @@ theorem Mid.iter {s : State} (h : Mid s) :
     rw [if_pos hc]
     refine ⟨fun _ => ?_, fun hh => by simp at hh⟩
     show Inv { s with reg := true }
-    obtain ⟨⟨r1, r2, r7, m1, aw, s1, s2, t1⟩, ⟨pcw, f1, f2⟩, ⟨e1, e2, e3, e5, e6, e7, e8⟩, ⟨w1, w2, w3⟩⟩ := h
+    obtain ⟨⟨r1, r2, r7, m1, aw, s1, s2, t1⟩, ⟨pcw, f1, f2, lk⟩, ⟨e1, e2, e3, e5, e6, e7, e8⟩, ⟨w1, w2, w3⟩⟩ := h
     inv_cases <;> simp_all [lastSeen, inputsNow, tickLive]
   · rw [if_neg hc]
     by_cases hn : (chk s).2 = true ∨ (chk s).1.firstRun = true
     · rw [if_pos hn]
-      obtain ⟨dc, ec, ew, hst, hfr⟩ := h.toFetch hn
+      obtain ⟨dc, ec, ew, hst, hfr, hlk⟩ := h.toFetch hn
       by_cases hr : (fetchState s).tickFired = true ∧ (fetchState s).curStatus = .ready
       · rw [if_pos hr]
-        refine ⟨fun hh => by simp at hh, fun _ => ?_⟩
-        exact ⟨applyResult_mid dc ec ew (fetchState_version s) (fetchState_firstRun s)
-          (fetchState_initialFut s) hfr, by simp [fetchState_chan], by simp [fetchState_firstRun]⟩
+        by_cases hg : (fetchState s).guards = 0
+        · rw [if_pos hg]
+          refine ⟨fun hh => by simp at hh, fun _ => ?_⟩
+          exact ⟨applyResult_mid dc ec ew (fetchState_version s) (fetchState_firstRun s)
+            (fetchState_initialFut s) hfr, by simp [fetchState_chan], by simp [fetchState_firstRun]⟩
+        · -- a read guard is held: the task waits for the write lock
+          rw [if_neg hg]
+          refine ⟨fun _ => ?_, fun hh => by simp at hh⟩
+          show Inv (blockOnLock (fetchState s))
+          obtain ⟨r1, r2, r7, m1, aw, s1, s2, t1⟩ := dc
+          obtain ⟨e1, e2, e3, e5, e6, e7, e8⟩ := ec
+          obtain ⟨w1, w2, w3⟩ := ew
+          have h1 := fetchState_pc s
+          have h2 := fetchState_firstRun s
+          have h3 := fetchState_initialFut s
+          have h4 := fetchState_version s
+          unfold blockOnLock
+          inv_cases <;> simp_all [lastSeen, inputsNow, tickLive] <;> grind
       · rw [if_neg hr]
         refine ⟨fun _ => ?_, fun hh => by simp at hh⟩
         show Inv { fetchState s with dataReg := (fetchState s).tickFired }
@@ -720,8 +815,8 @@ theorem Mid.iter {s : State} (h : Mid s) :
         · exact absurd (.inr h2) hn
       obtain ⟨hd, hsm, heq⟩ := chk_false s hc2
       rw [heq] at hf2 ⊢
-      obtain ⟨⟨r1, r2, r7, m1, aw, s1, s2, t1⟩, ⟨pcw, f1, f2⟩, ⟨e1, e2, e3, e5, e6, e7, e8⟩, ⟨w1, w2, w3⟩⟩ := h
-      refine ⟨⟨⟨?_, ?_, ?_, ?_, ?_, ?_, ?_, ?_⟩, ⟨?_, ?_, ?_⟩, ⟨?_, ?_, ?_, ?_, ?_, ?_, ?_⟩, ⟨?_, ?_, ?_⟩⟩, ?_, ?_⟩ <;>
+      obtain ⟨⟨r1, r2, r7, m1, aw, s1, s2, t1⟩, ⟨pcw, f1, f2, lk⟩, ⟨e1, e2, e3, e5, e6, e7, e8⟩, ⟨w1, w2, w3⟩⟩ := h
+      refine ⟨⟨⟨?_, ?_, ?_, ?_, ?_, ?_, ?_, ?_⟩, ⟨?_, ?_, ?_, ?_⟩, ⟨?_, ?_, ?_, ?_, ?_, ?_, ?_⟩, ⟨?_, ?_, ?_⟩⟩, ?_, ?_⟩ <;>
         simp_all [lastSeen, inputsNow, tickLive] <;> grind
 
 /-- entering the loop and running it to the next suspension point re-establishes the invariant -/
@@ -743,19 +838,19 @@ def enterStart (s : State) : State :=
      else { s with dWoken := false }) with pc := .waiting }
 
 theorem Inv.midStart {s : State} (h : Inv s) (hpc : s.pc = .start) : Mid (enterStart s) := by
-  obtain ⟨⟨r1, r2, r7, m1, aw, s1, s2, t1⟩, ⟨r3, r4, r5, r6, fresh⟩, ⟨e1, e2, e3, e5, e6, e7, e8⟩, ⟨w1, w2, w3⟩⟩ := h
+  obtain ⟨⟨r1, r2, r7, m1, aw, s1, s2, t1⟩, ⟨r3, r4, r5, r6, fresh, r8⟩, ⟨e1, e2, e3, e5, e6, e7, e8⟩, ⟨w1, w2, w3⟩⟩ := h
   unfold enterStart
-  refine ⟨⟨?_, ?_, ?_, ?_, ?_, ?_, ?_, ?_⟩, ⟨?_, ?_, ?_⟩, ⟨?_, ?_, ?_, ?_, ?_, ?_, ?_⟩, ⟨?_, ?_, ?_⟩⟩ <;>
+  refine ⟨⟨?_, ?_, ?_, ?_, ?_, ?_, ?_, ?_⟩, ⟨?_, ?_, ?_, ?_⟩, ⟨?_, ?_, ?_, ?_, ?_, ?_, ?_⟩, ⟨?_, ?_, ?_⟩⟩ <;>
     (simp only [lastSeen, inputsNow, tickLive] at *; (try split)) <;> simp_all
 
 theorem Inv.midWaiting {s : State} (h : Inv s) (hpc : s.pc = .waiting) : Mid { s with dWoken := false } := by
-  obtain ⟨⟨r1, r2, r7, m1, aw, s1, s2, t1⟩, ⟨r3, r4, r5, r6, fresh⟩, ⟨e1, e2, e3, e5, e6, e7, e8⟩, ⟨w1, w2, w3⟩⟩ := h
-  refine ⟨⟨?_, ?_, ?_, ?_, ?_, ?_, ?_, ?_⟩, ⟨?_, ?_, ?_⟩, ⟨?_, ?_, ?_, ?_, ?_, ?_, ?_⟩, ⟨?_, ?_, ?_⟩⟩ <;>
+  obtain ⟨⟨r1, r2, r7, m1, aw, s1, s2, t1⟩, ⟨r3, r4, r5, r6, fresh, r8⟩, ⟨e1, e2, e3, e5, e6, e7, e8⟩, ⟨w1, w2, w3⟩⟩ := h
+  refine ⟨⟨?_, ?_, ?_, ?_, ?_, ?_, ?_, ?_⟩, ⟨?_, ?_, ?_, ?_⟩, ⟨?_, ?_, ?_, ?_, ?_, ?_, ?_⟩, ⟨?_, ?_, ?_⟩⟩ <;>
     simp_all [lastSeen, inputsNow, tickLive]
 
 theorem Inv.midFetched {s : State} (h : Inv s) (hpc : s.pc = .fetching) :
     Mid (applyResult { s with dWoken := false }) := by
-  obtain ⟨⟨r1, r2, r7, m1, aw, s1, s2, t1⟩, ⟨r3, r4, r5, r6, fresh⟩, ⟨e1, e2, e3, e5, e6, e7, e8⟩, ⟨w1, w2, w3⟩⟩ := h
+  obtain ⟨⟨r1, r2, r7, m1, aw, s1, s2, t1⟩, ⟨r3, r4, r5, r6, fresh, r8⟩, ⟨e1, e2, e3, e5, e6, e7, e8⟩, ⟨w1, w2, w3⟩⟩ := h
   apply applyResult_mid
   · exact ⟨r1, r2, r7, m1, aw, s1, s2, t1⟩
   · exact ⟨e1, e2, e3, e5, e6, e7, e8⟩
@@ -772,9 +867,13 @@ theorem Inv.pollD {s : State} (h : Inv s) : Inv (pollD s) := by
     exact (h.midWaiting hpc).loop
   · rename_i hpc
     split
-    · exact (h.midFetched hpc).loop
-    · obtain ⟨⟨r1, r2, r7, m1, aw, s1, s2, t1⟩, ⟨r3, r4, r5, r6, fresh⟩, ⟨e1, e2, e3, e5, e6, e7, e8⟩, ⟨w1, w2, w3⟩⟩ := h
-      inv_cases <;> simp_all [lastSeen, inputsNow, tickLive]
+    · split
+      · exact (h.midFetched hpc).loop
+      · obtain ⟨⟨r1, r2, r7, m1, aw, s1, s2, t1⟩, ⟨r3, r4, r5, r6, fresh, r8⟩, ⟨e1, e2, e3, e5, e6, e7, e8⟩, ⟨w1, w2, w3⟩⟩ := h
+        unfold blockOnLock
+        inv_cases <;> simp_all [lastSeen, inputsNow, tickLive] <;> grind
+    · obtain ⟨⟨r1, r2, r7, m1, aw, s1, s2, t1⟩, ⟨r3, r4, r5, r6, fresh, r8⟩, ⟨e1, e2, e3, e5, e6, e7, e8⟩, ⟨w1, w2, w3⟩⟩ := h
+      inv_cases <;> simp_all [lastSeen, inputsNow, tickLive] <;> grind
 
 /-! ## the effect's task -/
 
@@ -825,13 +924,15 @@ structure Frame (s s' : State) : Prop where
   dstate : s'.dstate = s.dstate
   stolen : s'.stolen = s.stolen
   noReader : s'.noReader = s.noReader
+  lockReg : s'.lockReg = s.lockReg
+  guards : s'.guards = s.guards
 
 theorem Frame.refl (s : State) : Frame s s := by
   constructor <;> simp
 
 theorem Frame.trans {a b c : State} (h1 : Frame a b) (h2 : Frame b c) : Frame a c := by
-  obtain ⟨_, _, _, _, _, _, _, _, _, _, _, _, _, _, _, _, _, _, _, _, _, _, _, _, _, _, _, _, _, _, _, _, _, _, _, _, _, _, _, _, _, _, _⟩ := h1
-  obtain ⟨_, _, _, _, _, _, _, _, _, _, _, _, _, _, _, _, _, _, _, _, _, _, _, _, _, _, _, _, _, _, _, _, _, _, _, _, _, _, _, _, _, _, _⟩ := h2
+  obtain ⟨_, _, _, _, _, _, _, _, _, _, _, _, _, _, _, _, _, _, _, _, _, _, _, _, _, _, _, _, _, _, _, _, _, _, _, _, _, _, _, _, _, _, _, _, _⟩ := h1
+  obtain ⟨_, _, _, _, _, _, _, _, _, _, _, _, _, _, _, _, _, _, _, _, _, _, _, _, _, _, _, _, _, _, _, _, _, _, _, _, _, _, _, _, _, _, _, _, _⟩ := h2
   constructor <;> simp_all
 
 theorem Frame.dAsSource (s : State) : Frame s (dAsSource s).1 := by
@@ -875,10 +976,10 @@ theorem runEffect_inv {s : State} (dc : DCore s) (dr : DRest s)
     (hc : hasMemo s.eff = false → s.eChan = false) :
     DCore (runEffect s) ∧ DRest (runEffect s) ∧ ECore (runEffect s) := by
   obtain ⟨r1, r2, r7, m1, aw, s1, s2, t1⟩ := dc
-  obtain ⟨r3, r4, r5, r6, fresh⟩ := dr
+  obtain ⟨r3, r4, r5, r6, fresh, r8⟩ := dr
   obtain ⟨ms, mv, mr, x, h⟩ := runEffect_spec s
   rw [h]
-  refine ⟨⟨?_, ?_, ?_, ?_, ?_, ?_, ?_, ?_⟩, ⟨?_, ?_, ?_, ?_, ?_⟩, ⟨?_, ?_, ?_, ?_, ?_, ?_, ?_⟩⟩ <;>
+  refine ⟨⟨?_, ?_, ?_, ?_, ?_, ?_, ?_, ?_⟩, ⟨?_, ?_, ?_, ?_, ?_, ?_⟩, ⟨?_, ?_, ?_, ?_, ?_, ?_, ?_⟩⟩ <;>
     simp_all [lastSeen, inputsNow, tickLive]
   exact hasEffect_of_hasMemo _
 
@@ -909,11 +1010,11 @@ theorem effUpdate_inv {s : State} (dc : DCore s) (dr : DRest s)
     (s.eDirty = false → hasEffect s.eff = true → s.eFirst = false →
       lastSeen (effUpdate s).1 = some (effUpdate s).1.value) := by
   obtain ⟨r1, r2, r7, m1, aw, s1, s2, t1⟩ := dc
-  obtain ⟨r3, r4, r5, r6, fresh⟩ := dr
+  obtain ⟨r3, r4, r5, r6, fresh, r8⟩ := dr
   unfold effUpdate
   by_cases hd : s.eDirty = true
   · rw [if_pos hd]
-    refine ⟨⟨?_, ?_, ?_, ?_, ?_, ?_, ?_, ?_⟩, ⟨?_, ?_, ?_, ?_, ?_⟩, ?_, ?_, ?_, ?_, ?_, ?_, ?_, ?_, ?_⟩ <;>
+    refine ⟨⟨?_, ?_, ?_, ?_, ?_, ?_, ?_, ?_⟩, ⟨?_, ?_, ?_, ?_, ?_, ?_⟩, ?_, ?_, ?_, ?_, ?_, ?_, ?_, ?_, ?_⟩ <;>
       simp_all [lastSeen, inputsNow, tickLive]
   · rw [if_neg hd]
     have hmm : hasMemo s.eff = true := by
@@ -924,8 +1025,8 @@ theorem effUpdate_inv {s : State} (dc : DCore s) (dr : DRest s)
     have hfr := Frame.effAny L s
     generalize effAny L s = r at *
     obtain ⟨f1, f2, f3, f4, f5, f6, f7, f8, f9, f10, f11, f12, f13, f14, f19, f20, f21,
-      f22, f23, f24, f25, f26, g1, g2, g3, g6, g7, k1, k2, k3, k4, k5, k6, n1, n2, n3, n4, u1, u2, u3, g4, g5, g8⟩ := hfr
-    refine ⟨⟨?_, ?_, ?_, ?_, ?_, ?_, ?_, ?_⟩, ⟨?_, ?_, ?_, ?_, ?_⟩, ?_, ?_, ?_, ?_, ?_, ?_, ?_, ?_, ?_⟩ <;>
+      f22, f23, f24, f25, f26, g1, g2, g3, g6, g7, k1, k2, k3, k4, k5, k6, n1, n2, n3, n4, u1, u2, u3, g4, g5, g8, g9, g10⟩ := hfr
+    refine ⟨⟨?_, ?_, ?_, ?_, ?_, ?_, ?_, ?_⟩, ⟨?_, ?_, ?_, ?_, ?_, ?_⟩, ?_, ?_, ?_, ?_, ?_, ?_, ?_, ?_, ?_⟩ <;>
       simp_all [lastSeen, inputsNow, tickLive]
 
 /-- one iteration of the effect's loop, from a state satisfying everything but the effect's wake-up
@@ -939,14 +1040,14 @@ theorem eIter_inv {s : State} (dc : DCore s) (dr : DRest s) (ec : ECore s) :
     refine ⟨fun _ => ?_, fun hh => by simp at hh⟩
     show Inv { s with eReg := true }
     obtain ⟨r1, r2, r7, m1, aw, s1, s2, t1⟩ := dc
-    obtain ⟨r3, r4, r5, r6, fresh⟩ := dr
+    obtain ⟨r3, r4, r5, r6, fresh, r8⟩ := dr
     obtain ⟨e1, e2, e3, e5, e6, e7, e8⟩ := ec
     inv_cases <;> simp_all [lastSeen, inputsNow, tickLive]
   · rw [if_neg hc]
     have hc' : s.eChan = true := by simpa using hc
     obtain ⟨e1, e2, e3, e5, e6, e7, e8⟩ := ec
     have hu := effUpdate_inv (s := { s with eReg := true, eChan := false })
-      ⟨dc.r1, dc.r2, dc.r7, dc.m1, dc.aw, dc.s1, dc.s2, dc.t1⟩ ⟨dr.r3, dr.r4, dr.r5, dr.r6, dr.fresh⟩ e2 e6 (fun h => e5 h hc')
+      ⟨dc.r1, dc.r2, dc.r7, dc.m1, dc.aw, dc.s1, dc.s2, dc.t1⟩ ⟨dr.r3, dr.r4, dr.r5, dr.r6, dr.fresh, dr.r8⟩ e2 e6 (fun h => e5 h hc')
     generalize effUpdate { s with eReg := true, eChan := false } = u at *
     obtain ⟨udc, udr, ud, uc, uf, ue, usd, usm, udirty, ust, useen⟩ := hu
     by_cases hrun : u.2 = true ∨ u.1.eFirst = true
@@ -976,7 +1077,7 @@ theorem eLoop_inv (n : Nat) {s : State} (dc : DCore s) (dr : DRest s) (ec : ECor
   | zero =>
     show Inv { s with eWoken := true }
     obtain ⟨r1, r2, r7, m1, aw, s1, s2, t1⟩ := dc
-    obtain ⟨r3, r4, r5, r6, fresh⟩ := dr
+    obtain ⟨r3, r4, r5, r6, fresh, r8⟩ := dr
     obtain ⟨e1, e2, e3, e5, e6, e7, e8⟩ := ec
     inv_cases <;> simp_all [lastSeen, inputsNow, tickLive]
   | succ n ih =>
@@ -993,7 +1094,7 @@ theorem Inv.pollE {s : State} (h : Inv s) : Inv (pollE s) := by
   unfold Async.pollE
   obtain ⟨dc, dr, ec, ew⟩ := h
   exact eLoop_inv 4 (s := { s with eWoken := false }) ⟨dc.r1, dc.r2, dc.r7, dc.m1, dc.aw, dc.s1, dc.s2, dc.t1⟩
-    ⟨dr.r3, dr.r4, dr.r5, dr.r6, dr.fresh⟩ ⟨ec.e1, ec.e2, ec.e3, ec.e5, ec.e6, ec.e7, ec.e8⟩
+    ⟨dr.r3, dr.r4, dr.r5, dr.r6, dr.fresh, dr.r8⟩ ⟨ec.e1, ec.e2, ec.e3, ec.e5, ec.e6, ec.e7, ec.e8⟩
 
 /-! ## every event -/
 
@@ -1021,6 +1122,10 @@ theorem Inv.step {s : State} (h : Inv s) (e : Event) : Inv (step s e) := by
   | bread => exact h.bread
   | attachS => exact h.attachS
   | bdrop => exact h.bdrop
+  | attachR => exact h.attachK .awaiterR (by decide)
+  | attachH => exact h.attachK .holder (by decide)
+  | hold => exact h.hold
+  | release => exact h.release
 
 theorem Inv.foldl {s : State} (h : Inv s) (es : List Event) : Inv (es.foldl Async.step s) := by
   induction es generalizing s with
